@@ -152,6 +152,7 @@ EXTRA_MODULES = {
     "C05": ["Pdt.Props.Lemmas.Sort", "Pdt.Props.Lemmas.Partition", "Pdt.Props.Lemmas.KeyOrder", "Pdt.Props.C01Window"],
     "C04": ["Pdt.Props.Lemmas.Partition", "Pdt.Props.C04Filter"],
     "C07": ["Pdt.Props.C07Sql"],
+    "C06": ["Pdt.Props.C06Sql"],
 }
 
 
